@@ -181,7 +181,7 @@ def evStr (nodeData : Nat → String) : BEv → String
   | .addBr i => s!"R{i}"
   | .addTable i => s!"D{i}"
   | .addTag n st => (if st then "G+" else "G-") ++ n
-  | .addEmbed k _ => s!"M{kindCode k}"
+  | .addEmbed k _ => s!"M{kindCode k.toKind}"
 
 mutual
 partial def textData (n : Node) : List (Nat × String) :=
@@ -214,7 +214,7 @@ def atomsOf (es : List EAt) (ts : List (Nat × Bool × Nat)) : CAtoms :=
     rxUnlikely := fun i => match lookupE es i with | some e => e.rxU | none => false,
     rxMaybe := fun i => match lookupE es i with | some e => e.rxM | none => false,
     embed := fun i => match lookupE es i with
-      | some e => (match kindOfCode e.embed with | some k => if e.embed == 0 then .none else .some k | none => .none)
+      | some e => (if e.embed == 3 then .some .image else if e.embed == 4 then .some .figure else if e.embed == 6 then .some .embed else .none)
       | none => .none,
     dataTable := fun i => match lookupE es i with | some e => e.table | none => false,
     blank := fun i => match ts.find? (fun t => t.1 == i) with | some t => t.2.1 | none => false,
@@ -250,16 +250,15 @@ def bevP : P BEv := do
   else if k == "G" then do let n ← str; let st ← bool; pure (.addTag n st)
   else if k == "M" then do
     let c ← nat; let i ← nat
-    match kindOfCode c with
-    | some kd => pure (.addEmbed kd i)
-    | none => failure
+    if c == 3 then pure (.addEmbed .image i) else if c == 4 then pure (.addEmbed .figure i)
+    else if c == 5 then pure (.addEmbed .video i) else if c == 6 then pure (.addEmbed .embed i) else failure
   else failure
 
 def docElStr : DocEl → String
   | .text t => s!"x{t.start}-{t.stop}:f{t.firstWord}:l{t.lastWord}:g{t.group}:w{t.numWords}:a{t.numLinked}:t{t.tagLevel}:o{t.offset}"
   | .tag n st => (if st then "G+" else "G-") ++ n
   | .table i => s!"D{i}"
-  | .media k _ => s!"M{kindCode k}"
+  | .media k _ => s!"M{kindCode k.toKind}"
 
 /-- `builder n ev*` → the element list -/
 def builderSlice : P String := do
